@@ -54,3 +54,36 @@ package encoder
 //@ params r
 //@ requires r != nil
 //@ property C18
+
+//@ func (*varintConv).read
+//@ requires $recv != nil && $recv.reader != nil
+//@ modifies *
+//@ property C18
+
+//@ func (*varintConv).readBytes
+//@ params vi r
+//@ requires vi != nil && r != nil
+//@ modifies *
+//@ property C18
+
+//@ func DecodeObject
+//@ params r
+//@ requires r != nil
+//@ modifies *
+//@ property C18
+
+//@ func decodeBytecodeV2
+//@ params bc r
+//@ requires bc != nil && r != nil
+//@ modifies *
+//@ property C18
+
+//@ func (*Bytecode).UnmarshalBinary
+//@ requires $recv != nil
+//@ modifies *
+//@ property C18
+
+//@ func (*Array).UnmarshalBinary, (*Map).UnmarshalBinary, (*SyncMap).UnmarshalBinary, (*CompiledFunction).UnmarshalBinary, (*BuiltinFunction).UnmarshalBinary, (*Function).UnmarshalBinary, (*SourceFile).UnmarshalBinary, (*SourceFileSet).UnmarshalBinary
+//@ requires $recv != nil
+//@ modifies *
+//@ property C18
